@@ -21,6 +21,10 @@ def generate(seed, tier):
     rng = stream(seed, "c01")
     big = tier == "thorough" and rng.random() < 0.15
     spec = gen_instance(rng, huge=0.03, sparse_ids=0.03, large=0.008, max_jobs=6 if big else 4, max_machines=5 if big else 4, max_ops=6 if big else 4)
+    if stream(seed, "c01-benchmark").random() < 0.003:
+        from ..instances import benchmark_spec
+
+        spec = benchmark_spec("ft06")  # 6 x 6, loaded through load_benchmark_instance (twice, see instances.build)
     names, style = gen_filter(rng, None, user=0.15)
     faulty = rng.random() < 0.6
     ops = gen_dispatch_ops(
